@@ -117,13 +117,18 @@ def handle_events(sol_tuple, events, consts, direction, is_terminal, attributes)
         floor = D.epsilon(roots[0].dtype) * D.ar_numpy.maximum(1.0, D.ar_numpy.abs(t_root))
         return D.ar_numpy.where(D.ar_numpy.abs(width) < floor, D.ar_numpy.sign(t_next - t_prev) * floor, width)
 
+    # an event function may return a python number, a 0-d or a one-element array: one number per event either way (a column of
+    # one-element arrays would broadcast against the per-event direction flags and switch the direction filter off)
+    def __stack_scalars(values):
+        return D.ar_numpy.stack([D.ar_numpy.reshape(v, ()) if hasattr(v, "shape") else v for v in values])
+
     g = [ev_f[idx](t_root - __probe(t_root)) for idx, t_root in enumerate(roots)]
     g_cen = [ev_f[idx](t_root) for idx, t_root in enumerate(roots)]
     g_new = [ev_f[idx](t_root + __probe(t_root)) for idx, t_root in enumerate(roots)]
 
-    g = D.ar_numpy.stack(g)
-    g_cen = D.ar_numpy.stack(g_cen)
-    g_new = D.ar_numpy.stack(g_new)
+    g = __stack_scalars(g)
+    g_cen = __stack_scalars(g_cen)
+    g_new = __stack_scalars(g_new)
 
     if D.autoray.infer_backend(roots[0]) == 'torch':
         direction = direction.to(g.device)
@@ -137,8 +142,8 @@ def handle_events(sol_tuple, events, consts, direction, is_terminal, attributes)
         g = [ev_f[idx](t_root - fine) if t_root - fine != t_root else g[idx] for idx, t_root in enumerate(roots)]
         g_new = [ev_f[idx](t_root + fine) if t_root + fine != t_root else g_new[idx] for idx, t_root in enumerate(roots)]
 
-        g = D.ar_numpy.stack(g)
-        g_new = D.ar_numpy.stack(g_new)
+        g = __stack_scalars(g)
+        g_new = __stack_scalars(g_new)
 
         up = up | (((g <= 0) & (g_new >= 0)) | ((g <= 0) & (g_cen >= 0)) | ((g_cen <= 0) & (g_new >= 0)))
         down = down | ((g >= 0) & (g_new <= 0)) | ((g >= 0) & (g_cen <= 0)) | ((g_cen >= 0) & (g_new <= 0))
